@@ -34,17 +34,32 @@ typedef enum {
 #define atomic_load_explicit(addr, order) (*(addr))
 #define atomic_store_explicit(addr, val, order) (*(addr) = (val))
 
-#define atomic_fetch_add(obj, val) (*(obj) += (val))
-#define atomic_fetch_sub(obj, val) (*(obj) -= (val))
-#define atomic_fetch_or(obj, val) (*(obj) |= (val))
-#define atomic_fetch_xor(obj, val) (*(obj) ^= (val))
-#define atomic_fetch_and(obj, val) (*(obj) &= (val))
+// atomic_fetch_op returns the value the object held immediately before
+// the operation (C11 7.17.7.5). The update is a compare-and-swap loop;
+// `val` is evaluated once.
+#define __atomic_fetch_op(obj, val, op)                                 \
+  ({                                                                    \
+    __typeof__(obj) __af_p = (obj);                                     \
+    __typeof__(val) __af_v = (val);                                     \
+    __typeof__(*__af_p) __af_old = *__af_p;                             \
+    __typeof__(*__af_p) __af_new;                                       \
+    do {                                                                \
+      __af_new = __af_old op __af_v;                                    \
+    } while (!__builtin_compare_and_swap(__af_p, &__af_old, __af_new)); \
+    __af_old;                                                           \
+  })
 
-#define atomic_fetch_add_explicit(obj, val, order) (*(obj) += (val))
-#define atomic_fetch_sub_explicit(obj, val, order) (*(obj) -= (val))
-#define atomic_fetch_or_explicit(obj, val, order) (*(obj) |= (val))
-#define atomic_fetch_xor_explicit(obj, val, order) (*(obj) ^= (val))
-#define atomic_fetch_and_explicit(obj, val, order) (*(obj) &= (val))
+#define atomic_fetch_add(obj, val) __atomic_fetch_op(obj, val, +)
+#define atomic_fetch_sub(obj, val) __atomic_fetch_op(obj, val, -)
+#define atomic_fetch_or(obj, val) __atomic_fetch_op(obj, val, |)
+#define atomic_fetch_xor(obj, val) __atomic_fetch_op(obj, val, ^)
+#define atomic_fetch_and(obj, val) __atomic_fetch_op(obj, val, &)
+
+#define atomic_fetch_add_explicit(obj, val, order) __atomic_fetch_op(obj, val, +)
+#define atomic_fetch_sub_explicit(obj, val, order) __atomic_fetch_op(obj, val, -)
+#define atomic_fetch_or_explicit(obj, val, order) __atomic_fetch_op(obj, val, |)
+#define atomic_fetch_xor_explicit(obj, val, order) __atomic_fetch_op(obj, val, ^)
+#define atomic_fetch_and_explicit(obj, val, order) __atomic_fetch_op(obj, val, &)
 
 #define atomic_compare_exchange_weak(p, old, new) \
   __builtin_compare_and_swap((p), (old), (new))
